@@ -280,6 +280,13 @@ fn minimise(sc: &Scenario, seed: u64, class: &str) -> Scenario {
     // actions moved as early as possible.
     for _pass in 0..4 {
         let before = cur.clone();
+        try_apply(&mut cur, &|s| s.cfg = Cfg::default_cfg());
+        try_apply(&mut cur, &|s| s.cfg.layout = Layout::V4);
+        try_apply(&mut cur, &|s| s.cfg.backlog = 8);
+        try_apply(&mut cur, &|s| {
+            s.cfg.thr = 3;
+            s.cfg.max = 5;
+        });
         // merge neighbouring episodes
         let mut i = 0;
         while i + 1 < cur.episodes.len() {
